@@ -465,9 +465,9 @@ def gen_leaf(rng):
       return {'t': 'str', 'v': gen_string(rng) * rng.randint(8, 30)}   # long: > max_summary_len_for_str
     return {'t': 'str', 'v': gen_string(rng)}
   if r < 7:
-    return {'t': 'int', 'v': rng.randint(-5, 1000)}
+    return {'t': 'int', 'v': rng.choice([0, 1, rng.randint(-5, 1000)])}
   if r == 7:
-    return {'t': 'float', 'v': repr(rng.choice([0.5, -1.25, 3.0, 1e-7, 2.5e10]))}
+    return {'t': 'float', 'v': repr(rng.choice([0.5, -1.25, 3.0, 1e-7, 2.5e10, 1.0, 0.0, -0.0]))}
   if r == 8:
     return {'t': 'bool', 'v': rng.chance(0.5)}
   return {'t': 'none'}
@@ -641,6 +641,55 @@ def gen_xopts(rng, value):
 
 SCOPE_OPTS = ('enable_summary', 'enable_summary_for_str', 'max_summary_len_for_str', 'enable_summary_tooltip',
               'enable_key_tooltip', 'key_style', 'collapse_level', 'include_keys', 'exclude_keys')
+
+
+EQUAL_SCALARS = [
+    [{'t': 'bool', 'v': True}, {'t': 'int', 'v': 1}, {'t': 'float', 'v': '1.0'}],
+    [{'t': 'bool', 'v': False}, {'t': 'int', 'v': 0}, {'t': 'float', 'v': '0.0'}, {'t': 'float', 'v': '-0.0'}],
+]
+
+
+def gen_equal_scalars(rng):
+  """Leaves that are equal (`True == 1 == 1.0`, `False == 0 == 0.0 == -0.0`) but print differently,
+  side by side in one value: each must show ITS text."""
+  fam = rng.choice(EQUAL_SCALARS)
+  leaves = [dict(x) for x in rng.shuffle(fam)[:rng.randint(2, len(fam))]]
+  if rng.chance(0.4):
+    leaves += [dict(x) for x in rng.shuffle(rng.choice(EQUAL_SCALARS))[:2]]
+  k = rng.below(4)
+  if k == 0:
+    v = {'t': rng.choice(['list', 'tuple', 'pglist']), 'items': leaves}
+  elif k == 1:
+    v = {'t': rng.choice(['dict', 'pgdict']), 'items': [['k%d' % i, x] for i, x in enumerate(leaves)]}
+  elif k == 2:
+    v = {'t': 'dict', 'items': [['a', {'t': 'list', 'items': leaves[:1]}], ['b', {'t': 'pgdict', 'items': [['c', x] for x in leaves[1:2]]}]]
+         + [['r%d' % i, x] for i, x in enumerate(leaves[2:])]}
+  else:
+    v = {'t': 'obj', 'cls': 'Foo', 'items': [['x', leaves[0]], ['y', leaves[1]]]}
+  return v
+
+
+def _scalar_key(x):
+  if x['t'] == 'bool':
+    return float(bool(x['v']))
+  if x['t'] in ('int', 'float'):
+    return float(x['v'])
+  return None
+
+def _leaves(v):
+  ks = child_keys(v)
+  return [v] if not ks else [l for k in ks for l in _leaves(child(v, k))]
+
+def has_equal_pair(c):
+  vals = [c['value']] if c['op'] == 'render' else [st['value'] for st in c.get('steps', [])]
+  seen = {}
+  for v in vals:
+    for l in _leaves(v):
+      k = _scalar_key(l)
+      if k is not None:
+        seen.setdefault(k, set()).add((l['t'], str(l['v'])))
+  return any(len(x) > 1 for x in seen.values())
+
 
 
 def containers_of(v, prefix=()):
@@ -1012,6 +1061,17 @@ class C20(Prop):
       yield gen_history(rng)
     for _ in range(200 if quick else 4000):
       yield gen_mixed(rng)
+    for _ in range(60 if quick else 1200):
+      v = gen_equal_scalars(rng)
+      yield {'op': 'render', 'value': v, 'opts': gen_opts(rng, v) if rng.chance(0.5) else dict(DEFAULT_OPTS)}
+    for i in range(40 if quick else 600):
+      # the equal scalars spread over the renders of a history (the last ones in a fresh interpreter)
+      fam = rng.shuffle(rng.choice(EQUAL_SCALARS))
+      steps = [{'value': {'t': 'dict', 'items': [['v', dict(x)]]}, 'opts': {}, 'inner': None} for x in fam]
+      h = {'op': 'history', 'outer': {'key_style': 'label'} if rng.chance(0.5) else {}, 'steps': steps}
+      if i % 8 == 0:
+        h['fresh_process'] = True
+      yield h
     for _ in range(6 if quick else 40):
       h = gen_history(rng)
       if not h['outer']:
@@ -1799,7 +1859,40 @@ class C20(Prop):
     return None
 
   # -- the property itself -------------------------------------------------------------------
+  def _fresh_impl(self, case):
+    """The case on a brand-new interpreter (no earlier render in the process)."""
+    import subprocess
+    import sys
+    from harness.common import framework
+    c = {k: v for k, v in case.items() if k != 'fresh_process'}
+    code = ('import sys, json; sys.path[:0] = [%r, %r]; from harness import c20; P = c20.PROP; P.setup_impl(); '
+            'print(json.dumps(P.impl(json.load(sys.stdin))))' % (framework.VERIF, framework.REPO))
+    p = subprocess.run([sys.executable, '-c', code], input=json.dumps(c), capture_output=True, text=True, timeout=120)
+    if p.returncode != 0:
+      raise RuntimeError('fresh-process run failed: %s' % p.stderr[-400:])
+    return json.loads(p.stdout.strip().split('\n')[-1])
+
   def oracle(self, case, out):
+    f = self._oracle(case, out)
+    if (f and case['op'] in ('render', 'history') and not case.get('fresh_process')
+        and f['signature'] in ('leaf-missing', 'key-missing', 'render-depends-on-history')
+        and not has_equal_pair(case)):       # a pair of equal scalars fails whatever was rendered before
+      # Is it this input, or what the process rendered before it? Judge the input on a new interpreter
+      # (a bounded number of times per run; further ones are labelled as not classified).
+      self._fresh_runs = getattr(self, '_fresh_runs', 0) + 1
+      if self._fresh_runs > 8:
+        f = dict(f)
+        f['signature'] += ':process-state-not-classified'
+        return f
+      g = self._oracle(case, self._fresh_impl(case))
+      if g is None:
+        f = dict(f)
+        f['signature'] += ':after-earlier-renders'
+        f['what'] += (' — only after other renders in the same process (the same input alone, on a new interpreter, '
+                      'is fine): process-wide state leaks between renders')
+    return f
+
+  def _oracle(self, case, out):
     op = case['op']
     if op == 'escape':
       e = out['escaped']
@@ -2056,6 +2149,17 @@ class C20(Prop):
     return h
 
   def shrink_candidates(self, case):
+    """Candidates that keep a failure reproducible on its own: a value that holds two equal but
+    differently printed scalars (True / 1 / 1.0, …) is not shrunk below such a pair, because with
+    one of them alone the outcome would depend on what the process rendered before."""
+    has_pair = has_equal_pair
+    keep_pair = case['op'] in ('render', 'history') and has_pair(case)
+    for c in self._shrink_candidates(case):
+      if keep_pair and not has_pair(c):
+        continue
+      yield c
+
+  def _shrink_candidates(self, case):
     if case['op'] == 'history':
       for i in range(len(case['steps'])):
         if len(case['steps']) > 2:
